@@ -1,19 +1,185 @@
 package main
 
 import (
+	"encoding/json"
+	"flag"
 	"fmt"
-	"golang.org/x/tools/go/packages"
-	"golang.org/x/tools/go/ssa"
-	"golang.org/x/tools/go/ssa/ssautil"
+	"os"
+	"path/filepath"
+	"regexp"
+	"sort"
+	"strconv"
+	"strings"
+	"sync"
+	"time"
+
+	"verif/vc"
 )
 
 func main() {
-	cfg := &packages.Config{Mode: packages.LoadAllSyntax, Dir: "/repo", BuildFlags: []string{"-tags=verif"}}
-	pkgs, err := packages.Load(cfg, "./internal/sleep")
-	if err != nil {
-		panic(err)
+	prop := flag.String("prop", "", "property id (e.g. C33)")
+	tier := flag.String("tier", "quick", "quick|thorough")
+	repo := flag.String("repo", "/repo", "repository root")
+	verif := flag.String("verif", "/verif", "verif root")
+	update := flag.Bool("update-ledger", false, "rewrite the ledger for this property from the current run")
+	verbose := flag.Bool("v", false, "verbose")
+	only := flag.String("func", "", "only this function (debug)")
+	timeout := flag.Int("timeout", 0, "per-obligation solver timeout in seconds (default 20 quick / 60 thorough)")
+	flag.Parse()
+	if *prop == "" {
+		fmt.Fprintln(os.Stderr, "usage: govc -prop Cxx")
+		os.Exit(2)
 	}
-	prog, sp := ssautil.AllPackages(pkgs, ssa.GlobalDebug|ssa.InstantiateGenerics)
-	prog.Build()
-	fmt.Println(len(sp), sp[0].Pkg.Path())
+	t0 := time.Now()
+	seed := 0
+	if s := os.Getenv("VERIF_SEED"); s != "" {
+		seed, _ = strconv.Atoi(s)
+	}
+	if t := os.Getenv("VERIF_TIER"); t != "" && *tier == "quick" && t == "thorough" {
+		*tier = t
+	}
+	to := time.Duration(*timeout) * time.Second
+	if *timeout == 0 {
+		to = 20 * time.Second
+		if *tier == "thorough" {
+			to = 60 * time.Second
+		}
+	}
+	r := &vc.Run{Prop: *prop, Tier: *tier, Repo: *repo, Verif: *verif, Seed: seed, Timeout: to, Verbose: *verbose, OnlyFunc: *only, UpdateLedger: *update}
+	code := run(r)
+	r.WallS = time.Since(t0).Seconds()
+	if err := r.WriteEvidence(); err != nil {
+		fmt.Fprintln(os.Stderr, "evidence:", err)
+		if code == 0 {
+			code = 2
+		}
+	}
+	os.Exit(code)
 }
+
+var rePropTag = regexp.MustCompile(`\bC[0-9]{2}\b`)
+
+// packagesFor scans contract files textually to find the packages holding contracts for a property.
+func packagesFor(repo, prop string) []string {
+	files, _ := filepath.Glob(filepath.Join(repo, "internal", "*", "zz_verif_*.go"))
+	var pkgs []string
+	for _, f := range files {
+		b, err := os.ReadFile(f)
+		if err != nil {
+			continue
+		}
+		for _, line := range strings.Split(string(b), "\n") {
+			if !strings.Contains(line, "@") {
+				continue
+			}
+			hit := false
+			for _, m := range rePropTag.FindAllString(line, -1) {
+				if m == prop {
+					hit = true
+				}
+			}
+			if hit {
+				pkgs = append(pkgs, "./"+filepath.Dir(strings.TrimPrefix(f, repo+"/")))
+				break
+			}
+		}
+	}
+	sort.Strings(pkgs)
+	return pkgs
+}
+
+func run(r *vc.Run) int {
+	pkgs := packagesFor(r.Repo, r.Prop)
+	if len(pkgs) == 0 {
+		fmt.Printf("ERROR: no contract file mentions %s\n", r.Prop)
+		r.Fatal = "no contracts found for property (hook commits missing?)"
+		return 2
+	}
+	p, err := vc.Load(r.Repo, pkgs, filepath.Join(r.Verif, "contracts", "extern"))
+	if err != nil {
+		// a tree that does not type-check cannot be verified; report as tool error, not as a violation
+		fmt.Printf("ERROR: load: %v\n", err)
+		r.Fatal = "load: " + err.Error()
+		return 2
+	}
+	p.ScanMutableFields()
+	r.P = p
+	var contracts []*vc.Contract
+	for _, c := range p.CS.ByKey {
+		if c.Trusted && !c.Lemma {
+			continue
+		}
+		if r.OnlyFunc != "" && c.Func != r.OnlyFunc {
+			continue
+		}
+		for _, pr := range c.AllProps() {
+			if pr == r.Prop {
+				contracts = append(contracts, c)
+				break
+			}
+		}
+	}
+	sort.Slice(contracts, func(i, j int) bool { return contracts[i].Pkg+contracts[i].Func < contracts[j].Pkg+contracts[j].Func })
+	outDir := filepath.Join(r.Verif, "out", r.Prop)
+	os.RemoveAll(outDir)
+	os.MkdirAll(outDir, 0o755)
+	type job struct {
+		o  *vc.Obligation
+		fr *vc.FuncResult
+	}
+	var jobs []job
+	for _, c := range contracts {
+		fr := p.VerifyFunc(c)
+		r.Funcs = append(r.Funcs, fr)
+		for _, e := range fr.Errors {
+			fmt.Printf("  contract error in %s.%s: %s\n", shortPkg(c.Pkg), c.Func, e)
+		}
+		for _, o := range fr.Obls {
+			if !hasProp(o.Props, r.Prop) {
+				continue
+			}
+			jobs = append(jobs, job{o, fr})
+		}
+	}
+	// package-level census obligations
+	for _, o := range p.CensusObligations(r.Prop) {
+		r.Static = append(r.Static, o)
+	}
+	need2 := r.Tier == "thorough"
+	sem := make(chan struct{}, 6)
+	var wg sync.WaitGroup
+	order := []int{0, 1, 2}
+	if r.Seed%3 == 1 {
+		order = []int{1, 2, 0}
+	} else if r.Seed%3 == 2 {
+		order = []int{2, 0, 1}
+	}
+	for _, j := range jobs {
+		wg.Add(1)
+		sem <- struct{}{}
+		go func(j job) {
+			defer wg.Done()
+			defer func() { <-sem }()
+			vc.Solve(j.o, j.fr.Script, outDir, r.Timeout, need2, order)
+		}(j)
+	}
+	wg.Wait()
+	for _, j := range jobs {
+		r.Obls = append(r.Obls, j.o)
+	}
+	r.Obls = append(r.Obls, r.Static...)
+	return r.Report()
+}
+
+func hasProp(ps []string, p string) bool {
+	for _, x := range ps {
+		if x == p {
+			return true
+		}
+	}
+	return false
+}
+
+func shortPkg(p string) string { return strings.TrimPrefix(p, vc.ModPath+"/internal/") }
+
+var _ = json.Marshal
